@@ -2,7 +2,7 @@
 
 use core::{num::NonZeroU128, ops::Add};
 
-use num_traits::{AsPrimitive, Euclid, FromPrimitive};
+use num_traits::AsPrimitive;
 
 use crate::{
     builtins::core::{timezone::TimeZone, PlainDate, PlainDateTime},
@@ -89,13 +89,6 @@ impl NormalizedTimeDuration {
         (self.0 / i128::from(divisor), self.0 % i128::from(divisor))
     }
 
-    // Returns the fractionalDays value represented by this `NormalizedTimeDuration`
-    pub(super) fn as_fractional_days(&self) -> f64 {
-        // TODO: Unit test to verify MaxNormalized is within a castable f64 range.
-        let (days, remainder) = self.0.div_rem_euclid(&NS_PER_DAY_128BIT);
-        days as f64 + (remainder as f64 / NS_PER_DAY as f64)
-    }
-
     /// Equivalent: 7.5.31 NormalizedTimeDurationSign ( d )
     #[inline]
     #[must_use]
@@ -142,19 +135,28 @@ impl NormalizedTimeDuration {
             // 2. If unit is "day", then
             Unit::Day => {
                 // a. Let fractionalDays be days + DivideNormalizedTimeDuration(norm, nsPerDay).
-                let fractional_days = days.checked_add(&FiniteF64(self.as_fractional_days()))?;
                 // b. Set days to RoundNumberToIncrement(fractionalDays, increment, roundingMode).
-                let days = IncrementRounder::from_signed_num(
-                    fractional_days.0,
-                    options.increment.as_extended_increment(),
-                )?
-                .round(options.rounding_mode);
+                // The quotient is a mathematical value: it is rounded exactly, as the total in nanoseconds to a
+                // multiple of increment days (a double drops the last nanoseconds from about 128 days on).
+                let whole_days = days.as_integer_if_integral::<i128>()?;
+                let total_ns = whole_days
+                    .checked_mul(NS_PER_DAY_128BIT)
+                    .and_then(|d| d.checked_add(self.0))
+                    .ok_or(TemporalError::range())?;
+                let day_increment = options
+                    .increment
+                    .as_extended_increment()
+                    .checked_mul(unsafe { NonZeroU128::new_unchecked(NS_PER_DAY as u128) })
+                    .temporal_unwrap()?;
+                let rounded = IncrementRounder::<i128>::from_signed_num(total_ns, day_increment)?
+                    .round(options.rounding_mode);
+                let days = rounded / NS_PER_DAY_128BIT;
                 // c. Let total be fractionalDays.
                 // d. Set norm to ZeroTimeDuration().
                 (
                     FiniteF64::try_from(days)?,
                     NormalizedTimeDuration::default(),
-                    i128::from_f64(fractional_days.0),
+                    Some(total_ns / NS_PER_DAY_128BIT),
                 )
             }
             // 3. Else,
